@@ -11,7 +11,8 @@
 From Coq Require Import Reals ZArith List String.
 From PyLib Require Import PyVal PyBuiltins Ideal.
 From Gen Require Import M_base M_Angle M_Epoch M_Interpolation M_Coordinates M_Earth.
-From Proofs.C18 Require Import C18_spec C18_defs C18_bridge C18_dist C18_main C18_par C18_parbound C18_gc C18_gcm C18_parvec C18_parm.
+From Proofs.C18 Require Import C18_spec C18_defs C18_bridge C18_dist C18_main C18_par C18_parbound C18_gc C18_gcm C18_parvec C18_parm C18_mer C18_merint C18_merm.
+From Coquelicot Require Import Coquelicot.
 Import ListNotations.
 Open Scope R_scope.
 
@@ -234,6 +235,46 @@ Theorem C18_parallax_dalpha_tan : forall dec H rc k, 0 < par_A dec H rc k ->
   tan (topo_dalpha dec H rc k) = - rc * k * sin (rad H) / (cos (rad dec) - rc * k * cos (rad H)).
 Proof. exact parallax_dalpha_tan. Qed.
 
+(* ---- along a meridian.  [mer_radius a f] is the function that Earth.rm computes (C18_rm_*: bridging
+   lemma rm_ok), [RInt] Coquelicot's Riemann integral, so RInt (mer_radius a f) phi1 phi2 is the true
+   length of the meridian arc.  Andoyer's formula as coded is EXACTLY the integral of the first-order
+   expansion a (1 - 2f + 3f sin^2 phi) of the meridian radius (primitive mer_prim), and
+   |rm - a (1 - 2f + 3f sin^2)| <= 2 f^2 a for f <= 0.01; hence for latitudes p1 < p2 < p1 + 180 deg on one
+   meridian: |arc - D| <= 2 f^2 a (phi2 - phi1), and |arc - D| <= 1e-4 arc for f <= 0.007 (both built-in
+   ellipsoids: 2 f^2/(1-f)^2 = 2.3e-5). *)
+Theorem C18_andoyer_meridian_first_order : forall a f l p1 p2, p1 < p2 < p1 + PI ->
+  andoyer a f l p1 l p2 = mer_prim a f p2 - mer_prim a f p1
+  /\ is_RInt (mer_lin a f) p1 p2 (mer_prim a f p2 - mer_prim a f p1)
+  /\ (0 < a -> 0 <= f <= 1 / 100 -> forall phi, Rabs (mer_radius a f phi - mer_lin a f phi) <= 2 * (f * f) * a).
+Proof.
+  intros a f l p1 p2 H. split; [apply andoyer_meridian_prim, H|]. split; [apply mer_lin_RInt|].
+  intros Ha Hf phi. apply mer_radius_lin; assumption.
+Qed.
+
+Theorem C18_distance_meridian_arc : forall a f w, 0 < a -> 0 <= f <= 1 / 100 -> forall l p1 p2,
+  p1 < p2 < p1 + 180 ->
+  exists D,
+    Earth_distance Rops (earth a f w) (VFloat l) (VFloat p1) (VFloat l) (VFloat p2)
+    = VTuple [VFloat D; VFloat (Rround_nd (D * f * f) 0)] /\
+    ex_RInt (mer_radius a f) (rad p1) (rad p2) /\
+    Rabs (RInt (mer_radius a f) (rad p1) (rad p2) - D) <= 2 * (f * f) * a * (rad p2 - rad p1) /\
+    (f <= 7 / 1000 ->
+     Rabs (RInt (mer_radius a f) (rad p1) (rad p2) - D) <= 1 / 10000 * RInt (mer_radius a f) (rad p1) (rad p2)).
+Proof. exact meridian_float. Qed.
+Theorem C18_distance_meridian_arc_angle : forall a f w, 0 < a -> 0 <= f <= 1 / 100 -> forall l t1 p1 t2 t3 p2 t4,
+  p1 < p2 < p1 + 180 ->
+  exists D,
+    Earth_distance Rops (earth a f w) (ang l t1) (ang p1 t2) (ang l t3) (ang p2 t4)
+    = VTuple [VFloat D; VFloat (Rround_nd (D * f * f) 0)] /\
+    ex_RInt (mer_radius a f) (rad p1) (rad p2) /\
+    Rabs (RInt (mer_radius a f) (rad p1) (rad p2) - D) <= 2 * (f * f) * a * (rad p2 - rad p1) /\
+    (f <= 7 / 1000 ->
+     Rabs (RInt (mer_radius a f) (rad p1) (rad p2) - D) <= 1 / 10000 * RInt (mer_radius a f) (rad p1) (rad p2)).
+Proof. exact meridian_angle. Qed.
+
+Redirect "C18_andoyer_meridian_first_order.assumptions" Print Assumptions C18_andoyer_meridian_first_order.
+Redirect "C18_distance_meridian_arc.assumptions" Print Assumptions C18_distance_meridian_arc.
+Redirect "C18_distance_meridian_arc_angle.assumptions" Print Assumptions C18_distance_meridian_arc_angle.
 Redirect "C18_central_angle.assumptions" Print Assumptions C18_central_angle.
 Redirect "C18_distance_great_circle.assumptions" Print Assumptions C18_distance_great_circle.
 Redirect "C18_distance_great_circle_angle.assumptions" Print Assumptions C18_distance_great_circle_angle.
